@@ -28,6 +28,7 @@ def run(prog, rep, tier='quick', config='default'):
     r7b(prog, rep)
     r7c(prog, rep)
     r7d(prog, rep)
+    r7e(prog, rep, config)
 
 
 # ---------------------------------------------------------------------------------------------------- R7a
@@ -272,6 +273,60 @@ def r7d(prog, rep):
                           detail='the index stored for a header and the index used to fetch a record cell are not both the plain enumerate() position')
     else:
         rep.violation('R7d', 'anchor-lost:column-index-map', fn=p.name, detail='anchor lost: column index -> name map in parse_tx_csv')
+
+# ---------------------------------------------------------------------------------------------------- R7e
+REORDER = SORTS | CUSTOM_SORTS | {'reverse', 'rev', 'dedup', 'dedup_by', 'dedup_by_key', 'retain', 'retain_mut', 'swap', 'rotate_left',
+                                  'rotate_right', 'swap_remove', 'remove', 'truncate', 'drain', 'split_off', 'pop', 'sorted', 'sorted_by',
+                                  'sorted_by_key', 'sorted_unstable', 'select_nth_unstable', 'unique', 'skip', 'step_by', 'take'}
+READER_SEQ = re.compile(r'(Vec<util::rw::DescribedReader|\[util::rw::DescribedReader\]|(IntoIter|Iter|IterMut)<[^>]*util::rw::DescribedReader)')
+NAME_SEQ = re.compile(r'(Vec<std::string::String|\[std::string::String\]|(IntoIter|Iter|IterMut)<[^>]*std::string::String)')
+UNORDERED = re.compile(r'std::collections::(HashSet|HashMap|BTreeSet|BTreeMap)<')
+
+
+def r7e(prog, rep, config='default'):
+    """the files reach the parser in the order the user gave them: between the argument list and the reader list handed to the
+    application no call re-orders, drops or de-duplicates the file names / readers, and they do not pass through a set or map"""
+    n = 0
+    for fn in prog.product_fns():
+        makes = [c for c in fn.calls if re.search(r'util::rw::DescribedReader::from_(file_path|string)$', c.callee)]
+        if not makes or mir.is_testsupport(fn.name):
+            continue
+        has_list = any(READER_SEQ.search(t) for t in fn.ty.values())
+        if not has_list:
+            continue
+        n += 1
+        bad = []
+        for c in fn.calls:
+            for a in c.args:
+                l = op_local(a)
+                if l is None:
+                    continue
+                ty = fn.ty.get(l, '')
+                is_reader_seq = bool(READER_SEQ.search(ty))
+                is_name_seq = False
+                if not is_reader_seq and NAME_SEQ.search(ty):
+                    org = mir.provenance(fn, a, follow_all_call_args=True)
+                    is_name_seq = any(f == 'csv_files' for (_, f) in org.fields)
+                if not (is_reader_seq or is_name_seq):
+                    continue
+                dty = fn.ty.get(c.dst_local(), '') if c.dst_local() is not None else ''
+                if c.short in REORDER:
+                    bad.append((c, '%s() on the %s list' % (c.short, 'reader' if is_reader_seq else 'file-name')))
+                elif UNORDERED.search(dty) and c.short in ('collect', 'from_iter', 'from', 'into', 'extend'):
+                    bad.append((c, 'the %s list is collected into %s' % ('reader' if is_reader_seq else 'file-name', dty[:50])))
+        k = '%s|files-read-in-the-order-given' % fn.name
+        if bad:
+            c, why = bad[0]
+            rep.violation('R7e', k, where=c.where(), fn=fn.name,
+                          detail='%s: the position of a row in the concatenated input (the tie-break for rows of one security settling on the same '
+                                 'day) would no longer follow the order in which the files were given' % why)
+        else:
+            rep.ok('R7e', k, where=makes[0].where(), fn=fn.name,
+                   detail='the reader list is filled in argument order; no sort / reverse / dedup / retain / set on the file-name or reader list')
+    want = 1
+    if n < want:
+        rep.violation('R7e', 'anchor-lost:reader-list-construction',
+                      detail='anchor lost: no front-end function building the Vec<DescribedReader> (config %s)' % config)
 
 
 def fixture():
